@@ -344,9 +344,97 @@ fn run(args: &[String]) -> anyhow::Result<()> {
     Ok(())
 }
 
+/// `forest --in scenarios.ndjson`: replay of spec/CopyForest.tla behaviours on the real builder:
+/// connect sequences over a 2 x 2 grid of routed wires (two no-op rows) and two virtual targets;
+/// the representative map must induce the expected classes and sigma one cycle per class.
+fn forest(args: &[String]) -> anyhow::Result<()> {
+    use plonky2::gates::noop::NoopGate;
+    let inp = opt(args, "--in").ok_or_else(|| anyhow::anyhow!("--in"))?;
+    let mut n = 0u64;
+    let mut mism: Vec<Value> = vec![];
+    for s in read_lines(inp)? {
+        n += 1;
+        let cols = s["cols"].as_u64().unwrap() as usize;
+        let rows = s["rows"].as_u64().unwrap() as usize;
+        let routed = s["routed"].as_u64().unwrap() as usize;
+        let nv = s["nv"].as_u64().unwrap() as usize;
+        let connects: Vec<Vec<usize>> = serde_json::from_value(s["connects"].clone())?;
+        let expected: Vec<usize> = serde_json::from_value(s["expected"].clone())?;
+        let res = guarded(|| {
+            let mut b = CircuitBuilder::<F, D>::new(CfgSpec::standard().config());
+            let real_rows: Vec<usize> = (0..rows).map(|_| b.add_gate(NoopGate, vec![])).collect();
+            let virt: Vec<Target> = (0..nv).map(|_| b.add_virtual_target()).collect();
+            let tgt = |t: usize| -> Target {
+                if t < rows * cols {
+                    Target::wire(real_rows[t / cols], t % cols)
+                } else {
+                    virt[t - rows * cols]
+                }
+            };
+            for c in &connects {
+                b.connect(tgt(c[0]), tgt(c[1]));
+            }
+            let data = b.build::<PoseidonGoldilocksConfig>();
+            let nw = data.common.config.num_wires;
+            let degree = data.common.degree();
+            let rep = &data.prover_only.representative_map;
+            let idx = |t: usize| tgt(t).index(nw, degree);
+            let connectable: Vec<usize> = (0..rows * cols + nv).filter(|&t| t >= rows * cols || t % cols < routed).collect();
+            // (1) classes
+            for &a in &connectable {
+                for &c in &connectable {
+                    if (rep[idx(a)] == rep[idx(c)]) != (expected[a] == expected[c]) {
+                        return Err(format!("classes differ for targets {a},{c}"));
+                    }
+                }
+            }
+            // (2) sigma: decode k_i * w^r back to (row, column)
+            let k_is = &data.common.k_is;
+            let sub = &data.prover_only.subgroup;
+            let mut pos: std::collections::HashMap<u64, (usize, usize)> = Default::default();
+            for (c, k) in k_is.iter().enumerate() {
+                for (r, w) in sub.iter().enumerate() {
+                    pos.insert((*k * *w).to_canonical_u64(), (r, c));
+                }
+            }
+            let wires: Vec<usize> = (0..rows * cols).filter(|t| t % cols < routed).collect();
+            for &t in &wires {
+                let members: std::collections::BTreeSet<(usize, usize)> = wires.iter().filter(|&&u| expected[u] == expected[t])
+                    .map(|&u| (real_rows[u / cols], u % cols)).collect();
+                let mut orbit = std::collections::BTreeSet::new();
+                let mut cur = (real_rows[t / cols], t % cols);
+                while orbit.insert(cur) {
+                    let sv = data.prover_only.sigmas[cur.1][cur.0].to_canonical_u64();
+                    cur = *pos.get(&sv).ok_or_else(|| "sigma value is not a cell".to_string())?;
+                }
+                if orbit != members {
+                    return Err(format!("sigma orbit of wire {t} is {orbit:?}, expected {members:?}"));
+                }
+            }
+            Ok(())
+        });
+        match res {
+            Ok(Ok(())) => {}
+            Ok(Err(e)) => {
+                if mism.len() < 10 {
+                    mism.push(json!({"scenario": s, "detail": e}))
+                }
+            }
+            Err(p) => {
+                if mism.len() < 10 {
+                    mism.push(json!({"scenario": s, "panic": p}))
+                }
+            }
+        }
+    }
+    emit(&json!({"kind": "forest", "scenarios": n, "mismatches": mism}));
+    Ok(())
+}
+
 fn main() -> std::process::ExitCode {
     run_main(|cmd, rest| match cmd {
         "run" => run(rest),
+        "forest" => forest(rest),
         other => Err(anyhow::anyhow!("unknown command {other}")),
     })
 }
